@@ -93,6 +93,7 @@ pub fn benign_io(s: &mut ExecSpec, rng: &mut Rng) {
     io.eof_at = s.io.eof_at;
     io.stdout_fail_at = s.io.stdout_fail_at;
     io.stdout_errno = s.io.stdout_errno;
+    io.stop_at_input_byte = s.io.stop_at_input_byte;
     s.io = io;
 }
 
